@@ -65,7 +65,7 @@ Definition f32_to_f64 (p : Z) : Z :=
   let m := p mod 2 ^ 23 in
   if e =? 255 then
     (if m =? 0 then f64_sign_bit s + 2047 * 2 ^ 52
-     else f64_sign_bit s + 2047 * 2 ^ 52 + 2 ^ 51 + m * 2 ^ 29)
+     else f64_sign_bit s + 2047 * 2 ^ 52 + Z.lor (2 ^ 51) (m * 2 ^ 29))   (* the quiet bit is set, the payload kept *)
   else if e =? 0 then
     (if m =? 0 then f64_sign_bit s
      else let L := bitlen m in
